@@ -209,6 +209,39 @@ template <class Map, class Set, class Val, class Key, class MK = int> struct Fla
             ret = std::to_string(fm.size());
         else if (op == "ssize")
             ret = std::to_string(fs.size());
+        else if (op == "miter")
+        { // for (it = begin(); it != end(); ++it): std::map visits the entries in key order
+            ret = "";
+            const Map &cf = fm;
+            std::string r2;
+            for (auto it = fm.begin(); it != fm.end(); ++it)
+                ret += (ret.empty() ? "" : ",") + std::to_string(unbox(it->first)) + ">" + std::to_string(unbox(it->second));
+            for (auto it = cf.begin(); it != cf.end(); ++it)
+                r2 += (r2.empty() ? "" : ",") + std::to_string(unbox(it->first)) + ">" + std::to_string(unbox(it->second));
+            if (r2 != ret)
+                ret += "!const";
+            if (ret.empty())
+                ret = "-";
+            if (fm.empty() != (fm.size() == 0))
+                ret += "!empty";
+        }
+        else if (op == "meq")
+        { // operator== / != against a map with the same entries put in through operator[] in REVERSE order
+            Map c;
+            P ent[64];
+            size_t n = 0;
+            for (auto it = fm.begin(); it != fm.end() && n < 64; ++it)
+                ent[n++] = *it;
+            for (size_t i = n; i-- > 0;)
+                c[ent[i].first] = ent[i].second;
+            ret = std::to_string(c == fm) + std::to_string(c != fm);
+        }
+        else if (op == "mcget")
+        { // const operator[]: the mapped value, T() for an absent key, nothing inserted
+            const Map &cf = fm;
+            const Val &ref = cf[mk(a[1])];
+            ret = std::to_string(unbox(ref));
+        }
         else if (op == "siter")
         {
             // for (it = begin(); it != end(); ++it)
